@@ -436,8 +436,18 @@ def oracle_async(case, lines, casedir):
         pos += len(r)
         k += 1
     if pos != len(rest):
-        if free_after is not None and ann[ai:]:
-            return None if False else (None, "unobserved overload drop after the gates were opened; case not decidable (generator should avoid this)")
+        tb = queued + [curbuf]
+        if free_after is not None and len(ann) == ai + 1 and len(tb) > 25:
+            # after J nothing is appended any more: what was still in the front-end went out as ONE batch;
+            # it was over the threshold and an announcement was printed for it: announced drop, decidable
+            mm = re.match(r"Dropped log messages at (\d{8} \d\d:\d\d:\d\d\.\d{6}), (\d+) larger buffers$", ann[ai])
+            if not mm or int(mm.group(2)) != len(tb) - 2:
+                return (None, "announcement %r for the last batch, which had %d buffers (so %d beyond the two kept)" % (ann[ai], len(tb), len(tb) - 2))
+            alt = ann[ai].encode() + b"\n" + b"".join(make_record(th, sq, lens[th][sq]) for b in tb[:2] for (th, sq) in b)
+            if rest != alt:
+                return (None, "an overload drop was announced for the last batch (%d buffers) but the files do not continue with the announcement followed by "
+                              "exactly the records of its first two buffers" % len(tb))
+            return check_split_stream(parts, expect, iterations + [{"batch": tb, "ann": True}], [], lens, ann)
         return (None, "after the observed batches the files contain %d bytes that are not the next whole records in append order" % (len(rest) - pos))
     written = taken + k
     res = check_split_stream(parts, expect, iterations, tail[:k], lens, ann)
@@ -797,7 +807,8 @@ def run(chk, replay=None):
     chk.cov["free_running"] = free_stats
     chk.cov["phase_s"] = {"proof": round(pr["wall_s"], 1), "impl": round(t2 - t1, 1), "model": round(t3 - t2, 1)}
     chk.cov["rule"] = ("corpus + stop() at every back-end phase + overload cases at the valve boundary + the fit test at its boundary (len == avail) + "
-                       "several threads on one thread-safe LogFile (free-running, file oracle) + random sequential LogFile cases "
+                       "several threads on one thread-safe LogFile (free-running, file oracle) + free-running AsyncLogging runs incl. one stopped without "
+                       "quiescing (thorough: runs of several hundred MB through real 4 MB buffers and one with a slowed back-end that overloads) + random sequential LogFile cases "
                        "(roll sizes, flush intervals, checkEveryN, virtual seconds incl. same-second/backwards/day boundary, short-write and "
                        "stream-error scripts) + random forced async schedules (real 4 MB buffers) + free-running multi-thread runs; "
                        "non-trivial = reaches a roll, a short write, a stream error, a buffer hand-over, an overload drop, a stop with data "
